@@ -1,9 +1,9 @@
 package main
 
 import (
-	"regexp"
 	"fmt"
 	"go/types"
+	"regexp"
 	"sort"
 	"strings"
 
@@ -1761,47 +1761,47 @@ func checkStopTaken(w *World, r *Report, runs *motionRuns, roles *motionRoles, r
 		r.Fail(rule, "stop guard", "-", "no comparison between the written counter and the stop target was found", "")
 		return
 	}
-		// taken exactly when written >= target
-		var badA, badB, badC *Ctx
-		nA := 0
-		for _, cx := range exitCtxs(runs.fault) {
-			if cx.Ghosts["wcur:motion"] == 1 {
-				out, present := cx.Dec[roles.StopLabel]
-				if !present {
-					if badC == nil {
-						badC = cx
-					}
-					continue
+	// taken exactly when written >= target
+	var badA, badB, badC *Ctx
+	nA := 0
+	for _, cx := range exitCtxs(runs.fault) {
+		if cx.Ghosts["wcur:motion"] == 1 {
+			out, present := cx.Dec[roles.StopLabel]
+			if !present {
+				if badC == nil {
+					badC = cx
 				}
-				nA++
-				rel := relationOn(roles.StopLabel, roles.Written, out)
-				stopped := cx.Ghosts["stop:motion"] >= 1
-				switch rel {
-				case ">=":
-					if !stopped && badA == nil {
-						badA = cx
-					}
-				case "<":
-					if stopped && badB == nil {
-						badB = cx
-					}
-				default:
-					if badA == nil {
-						badA = cx
-					}
+				continue
+			}
+			nA++
+			rel := relationOn(roles.StopLabel, roles.Written, out)
+			stopped := cx.Ghosts["stop:motion"] >= 1
+			switch rel {
+			case ">=":
+				if !stopped && badA == nil {
+					badA = cx
+				}
+			case "<":
+				if stopped && badB == nil {
+					badB = cx
+				}
+			default:
+				if badA == nil {
+					badA = cx
 				}
 			}
 		}
-		cl, _ := parseCmpLabel(roles.StopLabel)
-		detail := fmt.Sprintf("decision '%s' in %d exit contexts: stop iff written >= target", cl.Raw, nA)
-		switch {
-		case badA != nil:
-			r.Fail(rule, "stop taken exactly when written >= target", "-", "the comparison is not 'written >= target' (non-strict) or the stop is skipped when it holds: "+describeCtx(badA), badA.Trace)
-		case badB != nil:
-			r.Fail(rule, "stop taken exactly when written >= target", "-", "the recording is stopped although written < target: "+describeCtx(badB), badB.Trace)
-		case badC != nil:
-			r.Fail(rule, "stop taken exactly when written >= target", "-", "a frame call writes a frame to the recording without testing the stop target: "+describeCtx(badC), badC.Trace)
-		default:
-			r.Check(nA > 0, rule, "stop taken exactly when written >= target", "-", detail)
-		}
 	}
+	cl, _ := parseCmpLabel(roles.StopLabel)
+	detail := fmt.Sprintf("decision '%s' in %d exit contexts: stop iff written >= target", cl.Raw, nA)
+	switch {
+	case badA != nil:
+		r.Fail(rule, "stop taken exactly when written >= target", "-", "the comparison is not 'written >= target' (non-strict) or the stop is skipped when it holds: "+describeCtx(badA), badA.Trace)
+	case badB != nil:
+		r.Fail(rule, "stop taken exactly when written >= target", "-", "the recording is stopped although written < target: "+describeCtx(badB), badB.Trace)
+	case badC != nil:
+		r.Fail(rule, "stop taken exactly when written >= target", "-", "a frame call writes a frame to the recording without testing the stop target: "+describeCtx(badC), badC.Trace)
+	default:
+		r.Check(nA > 0, rule, "stop taken exactly when written >= target", "-", detail)
+	}
+}
